@@ -23,10 +23,11 @@ sys.path.insert(0, os.path.join(vlib.VERIF, "translators"))
 import span_shapes  # noqa: E402
 
 (NEW, CLONE, CURRENT, ORCURRENT, DROP, ENTER, DROPGUARD, ENTERED, EXITOWNED, SCOPEBEGIN, SCOPEEND, RECORD, FOLLOWS,
- INSTRUMENT, POLLBEGIN, POLLEND, INTOINNER, SETDEFAULT, CLOSESCOPE, QUERY, INNERACCESS, SWAP, CLONEFUT, WITHCOLL) = range(24)
+ INSTRUMENT, POLLBEGIN, POLLEND, INTOINNER, SETDEFAULT, CLOSESCOPE, QUERY, INNERACCESS, SWAP, CLONEFUT, WITHCOLL,
+ CLONEDROP, CLONEFROM) = range(26)
 OPNAMES = ["New", "Clone", "Current", "OrCurrent", "Drop", "Enter", "DropGuard", "Entered", "ExitOwned", "ScopeBegin",
            "ScopeEnd", "Record", "FollowsFrom", "Instrument", "PollBegin", "PollEnd", "IntoInner", "SetDefault", "CloseScope",
-           "Query", "InnerAccess", "SpanMutSwap", "CloneFut", "WithCollector"]
+           "Query", "InnerAccess", "SpanMutSwap", "CloneFut", "WithCollector", "CloneDrop", "CloneFrom"]
 TAGS = {1: "new_span", 2: "clone_span", 3: "try_close", 4: "enter", 5: "exit", 6: "record", 7: "record_follows_from",
         8: "mark:poll-body", 9: "mark:inner-drop", 10: "mark:inner-touched"}
 FUTS = ('f', 'w', 'i')   # Instrumented / WithDispatch<Instrumented> / Instrumented<WithDispatch>
@@ -119,6 +120,10 @@ class Own:
             return self.anyfut(a) and self.readable(a) and not self.live(b)
         if code == WITHCOLL:
             return k.get(a) == 'f' and self.free(a)
+        if code == CLONEDROP:
+            return self.readable(a) and not self.live(b)
+        if code == CLONEFROM:
+            return k.get(a) == 'h' and self.free(a) and self.readable(b) and a != b and not self.live(c)
         return code in (SETDEFAULT, CLOSESCOPE) and not self.in_wd_poll(t)
 
     def apply(self, op):
@@ -162,7 +167,7 @@ class Own:
 WEIGHTS = [(NEW, 12), (CLONE, 9), (CURRENT, 5), (ORCURRENT, 3), (DROP, 8), (ENTER, 9), (DROPGUARD, 8), (ENTERED, 6),
            (EXITOWNED, 6), (SCOPEBEGIN, 5), (SCOPEEND, 5), (RECORD, 3), (FOLLOWS, 3), (INSTRUMENT, 7), (POLLBEGIN, 15),
            (POLLEND, 11), (INTOINNER, 3), (SETDEFAULT, 3), (CLOSESCOPE, 2), (QUERY, 3), (INNERACCESS, 3), (SWAP, 4),
-           (CLONEFUT, 4), (WITHCOLL, 4)]
+           (CLONEFUT, 4), (WITHCOLL, 4), (CLONEDROP, 4), (CLONEFROM, 5)]
 
 
 def gen_program(rng, n_main, threads, colls, malformed):
@@ -209,6 +214,13 @@ def gen_program(rng, n_main, threads, colls, malformed):
             elif code == WITHCOLL:
                 x[3] = rng.choice([0, 1 + r(colls + 1)])
             return x
+        if code == CLONEDROP:
+            gs = [e[1] for e in own.ents if e[0] == 'o']
+            src = rng.choice(gs) if gs and rng.random() < 0.6 else (rng.choice(hs) if hs else r(NH))
+            return [t, CLONEDROP, src, r(NH), 0, 0, 0]
+        if code == CLONEFROM:
+            hh = [h for h in hs if own.kinds[h] == 'h']
+            return [t, CLONEFROM, (rng.choice(hh) if hh else r(NH)), (rng.choice(hs) if hs else r(NH)), r(NH), r(4), 0]
         if code in (SWAP, CLONEFUT):
             fs = [h for h in hs if own.kinds[h] in FUTS]
             f = rng.choice(fs) if fs and rng.random() < 0.9 else (rng.choice(hs) if hs else r(NH))
@@ -232,7 +244,17 @@ def gen_program(rng, n_main, threads, colls, malformed):
         return [t, CLOSESCOPE, 0, 0, 0, 0, 0]
 
     # most programs start by installing a default somewhere
-    if rng.random() < 0.85:
+    if rng.random() < 0.2:
+        # two spans from the same callsite under two collectors (equal ids when the collectors number their spans
+        # themselves), one handle then overwritten with the other by clone_from
+        c1, c2 = rng.sample(range(1, colls + 1), 2)
+        how, pk = rng.randrange(2), rng.choice([0, 1])
+        for op in ([0, SETDEFAULT, c1, 0, 0, 0, 0], [0, NEW, 0, how, 1, pk, 0], [0, SETDEFAULT, c2, 0, 0, 0, 0],
+                   [0, NEW, 1, how, 1, pk, 0]) + (([0, CLONEFROM, 0, 1, 6, rng.randrange(4), 0],) if rng.random() < 0.6 else ()):
+            assert own.ok(op)
+            own.apply(op)
+            ops.append(op)
+    elif rng.random() < 0.85:
         ops.append([0, SETDEFAULT, rng.randrange(1, colls + 1), 0, 0, 0, 0])
     while len(ops) < n_main:
         want_bad = (len(ops) + 1 == bad_at)
@@ -286,7 +308,9 @@ def coq_op(op):
         how = "Direct" if b == 1 else "(ViaMacro %s)" % ("true" if c else "false")
         par = ["PRoot", "PCtx", "(PExp %d)" % e, "(PExpId %d)" % e, "PNoneId"][d]
         body = "New %d %s %s" % (a, how, par)
-    elif code in (CLONE, ENTER, QUERY, INNERACCESS, SWAP, CLONEFUT):
+    elif code == CLONEFROM:
+        body = "CloneFrom %d %d %d" % (a, b, c)
+    elif code in (CLONE, ENTER, QUERY, INNERACCESS, SWAP, CLONEFUT, CLONEDROP):
         body = "%s %d %d" % (OPNAMES[code], a, b)
     elif code == FOLLOWS:
         body = "FollowsFrom %d %s" % (a, ["(FSpan %d)" % b, "(FId %d)" % b, "FNone"][min(c, 2)])
@@ -345,8 +369,13 @@ def oracle(case, out):
         t, code, a, b = op[0], op[1], op[2], op[3]
         cur = (defaults.get(t) or [0])[-1]
         # --- non-trivial flags
-        if code == CLONE:
+        if code in (CLONE, CLONEDROP, CLONEFROM):
             flags.add("clone")
+        if code == CLONEDROP and any(e[0] == 'o' and e[1] == a for e in own.ents):
+            flags.add("clone-on-entered-guard")
+        if code == CLONEFROM and ids.get(a, 0) > 0 and ids.get(b, 0) > 0 and \
+                creator.get(ids[a] - 1) != creator.get(ids[b] - 1):
+            flags.add("clone-from-across-collectors")
         if code == DROPGUARD:
             mine = [e for e in own.ents if e[2] == t]
             if mine and mine[-1][0] != ('g', a):
@@ -364,7 +393,8 @@ def oracle(case, out):
         # --- expected silence / instrumentation shape (judged before the state changes)
         refs = {NEW: ([op[6]] if op[5] == 2 else []), CLONE: [a], DROP: [a], ENTER: [a], ENTERED: [a], EXITOWNED: [a],
                 SCOPEBEGIN: [a], RECORD: [a], FOLLOWS: [a], INSTRUMENT: [a], POLLBEGIN: [a], INTOINNER: [a],
-                QUERY: [a], INNERACCESS: [a], SWAP: [a, b], CLONEFUT: [a], WITHCOLL: [a]}.get(code)
+                QUERY: [a], INNERACCESS: [a], SWAP: [a, b], CLONEFUT: [a], WITHCOLL: [a], CLONEDROP: [a],
+                CLONEFROM: [a, b]}.get(code)
         if code == DROPGUARD:
             g = own.find_guard(a)
             refs = [g[1]] if g else []
@@ -439,6 +469,27 @@ def oracle(case, out):
                     depth[(sp, et)] -= 1
         # --- handles made / dropped, as the real Span::id() reports them
         res, dr, pre = rec["res"], rec["dr"], rec["pre"]
+        def span_of(h):           # the span a reported handle id (id + 1) denotes; None = disabled / no collector / unknown
+            return root.get(h - 1) if h and h - 1 != NOCOLL else None
+        if code == CLONEDROP:
+            # a handle of r's span came into existence and was dropped again
+            sp_ = span_of(ids.get(a, 0))
+            if sp_ is not None:
+                made[sp_] = made.get(sp_, 0) + 1
+                dropped[sp_] = dropped.get(sp_, 0) + 1
+        if code == CLONEFROM:
+            # a.clone_from(&b): a handle of b's span came into existence, the value a held before was dropped
+            old_, src_ = span_of(ids.get(a, 0)), span_of(ids.get(b, 0))
+            if src_ is not None:
+                made[src_] = made.get(src_, 0) + 1
+            if old_ is not None:
+                dropped[old_] = dropped.get(old_, 0) + 1
+            if span_of(res) != src_ or (res == 0) != (ids.get(b, 0) == 0):
+                bad("after clone_from the handle does not refer to the span of its source", i, handle_id=res - 1,
+                    source_id=ids.get(b, 0) - 1)
+            if returned is not None and res - 1 != returned:
+                bad("the new handle does not carry the id its collector returned for it", i, handle_id=res - 1,
+                    collector_returned=returned)
         if code in (NEW, CLONE, CURRENT, CLONEFUT) or (code == ORCURRENT and pre == 0):
             if res and res - 1 != NOCOLL:
                 if res - 1 not in root:
@@ -451,7 +502,7 @@ def oracle(case, out):
                         collector_returned=returned)
         if dr and dr - 1 != NOCOLL and dr - 1 in root:
             dropped[root[dr - 1]] = dropped.get(root[dr - 1], 0) + 1
-        if code in (NEW, CURRENT, ORCURRENT, EXITOWNED):
+        if code in (NEW, CURRENT, ORCURRENT, EXITOWNED, CLONEFROM):
             ids[a] = res
         elif code in (CLONE, CLONEFUT):
             ids[b] = res
@@ -515,11 +566,13 @@ def oracle(case, out):
 
 def describe_collectors(case):
     ws = case.get("wraps") or []
+    own = case.get("own_ids")
     names = ["Dispatch::new(c)", "Dispatch::new(Box::new(c))", "Dispatch::new(Arc::new(c))",
              "Dispatch::new(Box<dyn Collect + Send + Sync>)", "Dispatch::new(Arc<dyn Collect + Send + Sync>)"]
     return ["collector %d: %s%s" % (k + 1, names[ws[k] if k < len(ws) else 0],
                                     ", clone_span returns a fresh id per handle, current_span unknown" if k + 1 >= 3 else "")
-            for k in range(case.get("collectors", 2))]
+            for k in range(case.get("collectors", 2))] + \
+        (["every collector numbers its spans from 1 (the log shows global sequence numbers)"] if own else [])
 
 
 def wf_all(ops):
@@ -571,14 +624,16 @@ def model_obs(ctx, cases, tag="cases"):
 
 def run(ctx):
     rep = Report(ctx)
-    rep.rule = ("seeded random programs over 24 op kinds (New via span!/direct x root/contextual/&Span/Option<Id>/None parent x enabled?, "
+    rep.rule = ("seeded random programs over 26 op kinds (New via span!/direct x root/contextual/&Span/Option<Id>/None parent x enabled?, "
                 "Clone, Current, OrCurrent, Drop, Enter/DropGuard in any order, Entered/ExitOwned, in_scope begin/end (return or unwind), "
                 "Record chains incl. missing fields, FollowsFrom &Span/Option<Id>/None, is_none/is_disabled/id/metadata, Instrument "
                 "(tracing / tracing-futures; plain or around a WithDispatch), with_collector / with_current_collector around an "
                 "Instrumented, Poll begin/end (Pending/Ready/panic), IntoInner, inner/inner_mut/inner_pin_ref/inner_pin_mut, "
-                "mem::swap through span_mut, Clone for Instrumented/WithDispatch, SetDefault/CloseScope) on 1-3 (thorough: 1-6) OS threads, "
+                "mem::swap through span_mut, Clone for Instrumented/WithDispatch, drop(x.clone()) written on the holder incl. an EnteredSpan "
+                "guard, clone_from directly / through Box / Option / Vec, SetDefault/CloseScope) on 1-3 (thorough: 1-6) OS threads, "
                 "2-4 recording collectors (installed directly or behind Box<C> / Arc<C> / Box<dyn Collect> / Arc<dyn Collect>; "
-                "collectors 3 and 4 return a fresh alias id from clone_span and do not track the current span) + no collector; non-trivial = the program has a clone AND (an out-of-order guard drop OR a "
+                "collectors 3 and 4 return a fresh alias id from clone_span and do not track the current span; in 35 % of the cases every "
+                "collector numbers its spans from 1, so ids overlap between collectors) + no collector; non-trivial = the program has a clone AND (an out-of-order guard drop OR a "
                 "future dropped between polls OR a collector call made while the thread's default was a different collector / none "
                 "OR a handle consumed on one thread while its span is entered on another); distinct = distinct op lists")
     rep.trusted_base = [
@@ -642,12 +697,15 @@ def run(ctx):
         # how each collector reaches Dispatch::new: directly, Box<C>, Arc<C>, Box<dyn Collect + Send + Sync>, Arc<dyn ..>
         wraps = [rng.choice([0, 0, 1, 2, 3, 4]) for _ in range(colls)]
         cases.append({"id": "r%d" % k, "threads": threads, "collectors": colls, "wraps": wraps,
+                      # every collector numbers its spans from 1 (tracing sees overlapping ids); the log stays in global numbers
+                      "own_ids": rng.random() < 0.35,
                       "ops": gen_program(rng, size, threads, colls, malformed)})
     if ctx.replay:
         rp = json.load(open(ctx.replay))
         c = rp.get("case", rp)
         c = c.get("program", c)
         cases = [{"id": "replay", "threads": c["threads"], "collectors": c["collectors"], "wraps": c.get("wraps", []),
+                  "own_ids": c.get("own_ids", False),
                   "ops": [(o + [0] * 7)[:7] for o in c["ops"]]}]
     # ---- implementation
     builds = [False] + ([True] if ctx.thorough() else [])
@@ -722,8 +780,19 @@ def run(ctx):
             if model is not None:
                 m_ops, m_ok = model[c["id"]]
                 want_rej = -1 if m_ok else len(m_ops)
-                i_ops = [([list(e) for e in o["e"]], o["res"]) for o in r["ops"]]
-                mm_ops = [([list(e) for e in ents], res) for ents, res in m_ops]
+                own_ids = bool(c.get("own_ids"))
+
+                def vis(e):
+                    # with per-collector id counters an id of ANOTHER collector (explicit parent, follows_from source) cannot
+                    # be named in global numbers by the receiving collector: not compared
+                    e = list(e)
+                    if own_ids and e[2] == 1 and e[4] == 2:
+                        e[5] = 0
+                    if own_ids and e[2] == 7:
+                        e[4] = 0
+                    return e
+                i_ops = [([vis(e) for e in o["e"]], o["res"]) for o in r["ops"]]
+                mm_ops = [([vis(e) for e in ents], res) for ents, res in m_ops]
                 if want_rej != r["rejected_at"] or i_ops != mm_ops:
                     first = next((j for j, (x, y) in enumerate(zip(i_ops, mm_ops)) if x != y), min(len(i_ops), len(mm_ops)))
                     disagree.append({"program": c, "pretty": pretty(c["ops"]), "first_differing_op": first,
